@@ -357,3 +357,61 @@ def domain_user_function(S):
         r = S.method(w, "__call__", {})
         S.ensure("constant-number", isinstance(r, Tensor) and r.val.rank == 0)
         S.ensure("constant-value", r.val.at([]) == 3.5)
+
+
+@scenario("C13", [UF + ".necessary_args", UF + ".optional_args", UF + ".__call__", UF + ".partially_evaluate", UF + ".set_default"], configs=["default-is-None"], bounded=BOUND)
+def a_default_value_of_None_is_a_default_like_any_other(S):
+    """f(x, y, t=None, k=K): the parameter t HAS a default (the value None), so it is optional -- calls that supply x
+    and y are accepted and bind t=None, partial evaluation with x and y evaluates the function; likewise a name bound
+    to None through set_default / partially_evaluate counts as bound"""
+    K = S.opaque("K")
+    f = UserFn("f", ["x", "y", "t", "k"], {"t": None, "k": K})
+    w = S.new(UF, f)
+    S.ensure("necessary-args-are-the-parameters-without-default", list(S.getattr(w, "necessary_args")) == ["x", "y"])
+    S.ensure("optional-args-include-the-None-default", list(S.getattr(w, "optional_args")) == ["t", "k"])
+    xv, yv = S.opaque("xv"), S.opaque("yv")
+    out = S.outcome(lambda: S.method(w, "__call__", {"y": yv, "x": xv}))
+    S.ensure("call-with-the-required-names-is-accepted", out[0] == "ok" and len(f.calls) == 1)
+    if len(f.calls) == 1:
+        b = f.calls[0]["bound"]
+        S.ensure("None-default-bound-by-name", sorted(b) == ["k", "t", "x", "y"] and b["t"] is None and b["k"] is K and b["x"] is xv and b["y"] is yv)
+    n0 = len(f.calls)
+    pe = S.outcome(lambda: S.method(w, "partially_evaluate", x=xv, y=yv))
+    S.ensure("partial-evaluation-with-all-required-names-evaluates-the-function", pe[0] == "ok" and len(f.calls) == n0 + 1)
+    g = UserFn("g", ["a", "b"], {})
+    w2 = S.new(UF, g)
+    w3 = S.method(w2, "partially_evaluate", b=None)
+    av = S.opaque("av")
+    out2 = S.outcome(lambda: S.method(w3, "__call__", {"a": av}))
+    S.ensure("a-name-bound-to-None-by-partial-evaluation-is-bound", out2[0] == "ok" and len(g.calls) == 1 and g.calls[0]["bound"].get("b", "missing") is None and g.calls[0]["bound"].get("a") is av)
+
+
+def _pe_override(S):
+    """partial evaluation that supplies a value for a name which ALREADY has a default (a Python default, or a value
+    fixed by an earlier partial evaluation): the supplied value wins -- both when the call completes the arguments
+    (the function is evaluated) and when it does not (a new wrapper is returned)"""
+    d0 = S.opaque("declared_default")
+    f = UserFn("f", ["t", "scale"], {"scale": d0})
+    w = S.new(UF, f)
+    tv, sv = S.opaque("tv"), S.opaque("sv")
+    S.method(w, "partially_evaluate", t=tv, scale=sv)
+    S.ensure("completing-call-evaluates-once", len(f.calls) == 1)
+    if len(f.calls) == 1:
+        b = f.calls[0]["bound"]
+        S.ensure("supplied-value-overrides-the-declared-default", b.get("scale") is sv and b.get("t") is tv)
+    g = UserFn("g", ["a", "b"], {})
+    w2 = S.new(UF, g)
+    a1, a3, b2 = S.opaque("a1"), S.opaque("a3"), S.opaque("b2")
+    w3 = S.method(w2, "partially_evaluate", a=a1)
+    S.method(w3, "partially_evaluate", a=a3, b=b2)
+    S.ensure("second-evaluation-completes", len(g.calls) == 1)
+    if len(g.calls) == 1:
+        b = g.calls[0]["bound"]
+        S.ensure("re-fixing-an-already-fixed-name-uses-the-new-value", b.get("a") is a3 and b.get("b") is b2)
+    w4 = S.method(w3, "partially_evaluate", a=a3)
+    S.ensure("re-fixing-without-completing-stores-the-new-value", S.getattr(w4, "defaults").get("a") is a3 and S.getattr(w3, "defaults").get("a") is a1)
+
+
+_pe_override.__name__ = "values_given_to_partial_evaluation_override_stored_defaults"
+scenario("C13", [UF + ".partially_evaluate"], configs=["declared-default-and-re-fixed-name"], bounded=BOUND)(_pe_override)
+scenario("C17", [UF + ".partially_evaluate"], configs=["declared-default-and-re-fixed-name"], bounded=BOUND)(_pe_override)
